@@ -790,6 +790,8 @@ fn run_peer(args: &Args) {
 	// (0c) ephemeral keys: a fresh key per connection (differential against Model/EphKey + oracles), replay of a
 	// recorded initiator transcript on a fresh inbound connection must be dropped at act three
 	eph::eph_scenarios(&mut rec, &mut rng, &secp, if args.thorough { 300 } else { 30 });
+	// (0d) disconnect bookkeeping on every disconnect path, ping / handshake timeout, replayed responder transcript (oracles)
+	eph::book_scenarios(&mut rec, &mut rng, &secp, if args.thorough { 150 } else { 15 });
 
 	// (1) two PeerManagers: identity delivery under fragmentation / coalescing / back-pressure
 	let (n_long, n_runs, n_small) = if args.thorough { (6000, 400, 300) } else { (1300, 60, 120) };
@@ -887,6 +889,7 @@ fn run_peer(args: &Args) {
 		oracle_case(&mut rec, &format!("note nonsense {}", seq.iter().skip(1).map(|m| format!("{}:{}", u16::from_be_bytes([m[0], m[1]]), m.len())).collect::<Vec<_>>().join(",")), "nonsense");
 	}
 	nonsense_chanman(&mut rec, &mut rng, &secp, if args.thorough { 1500 } else { 150 });
+	init_content_scenarios(&mut rec, &mut rng, &secp, if args.thorough { 40 } else { 4 });
 	// (5) reply_channel_range batches for queries covering 0 … more than two full batches of channels
 	range_reply_scenario(&mut rec, &mut rng, &secp, if args.thorough { 24_100 } else { 8_300 });
 	rec.notes.insert("rule".into(), "every `run` is one whole connection (distinct by its chunk-size list): two real PeerManagers joined by descriptors that fragment, coalesce and refuse writes per PRNG (one > 1000-message run per direction; pings with ponglen 0, 1, 65530, 65531, 65532, 65533, 65535 and byteslen up to 65529 among the messages, the pongs travelling back), or the harness speaking BOLT-8 through the Enc hook to one PeerManager (protocol rules, corruption at chosen offsets, size-boundary pings / pongs / 65535-byte messages under partial reads and writes with the node's answers decrypted); `replies` lines compare the lengths of the messages the node built itself with the model; garbage handshakes and nonsensical BOLT messages are oracle cases (no panic)".into());
@@ -900,6 +903,12 @@ fn enc_handshake_generic<CM: msgs::ChannelMessageHandler, RM: msgs::RoutingMessa
 	pm: &PeerManager<Desc, CM, RM, OM, L, CMH, NS, SM>, node_id: PublicKey, rng: &mut Rng, secp: &Secp, d: &mut Desc,
 ) -> Result<(Enc, Vec<u8>), String> {
 	let my = rand_sk(rng);
+	enc_handshake_with_key(pm, node_id, rng, secp, d, &my)
+}
+fn enc_handshake_with_key<CM: msgs::ChannelMessageHandler, RM: msgs::RoutingMessageHandler, OM: msgs::OnionMessageHandler, L: lightning::util::logger::Logger, CMH: CustomMessageHandler, NS: lightning::sign::NodeSigner, SM: lightning::ln::msgs::SendOnlyMessageHandler>(
+	pm: &PeerManager<Desc, CM, RM, OM, L, CMH, NS, SM>, node_id: PublicKey, rng: &mut Rng, secp: &Secp, d: &mut Desc, my: &SecretKey,
+) -> Result<(Enc, Vec<u8>), String> {
+	let my = *my;
 	let signer = TestNodeSigner::new(my);
 	d.s.lock().unwrap().budget = usize::MAX / 2;
 	let take = |d: &Desc, n: usize| -> Result<Vec<u8>, String> { let mut s = d.s.lock().unwrap(); if s.out.len() < n { return Err("short write".into()); } Ok(s.out.drain(..n).collect()) };
@@ -918,6 +927,63 @@ fn enc_handshake_generic<CM: msgs::ChannelMessageHandler, RM: msgs::RoutingMessa
 	enc.decrypt_message(&mut body).map_err(|_| "init body")?;
 	body.truncate(len);
 	Ok((enc, body))
+}
+
+/// (4c) CONTENT of the Init compatibility checks, against a PeerManager backed by a real ChannelManager (testnet,
+/// `get_chain_hashes` = Some): adversarial Inits derived from the node's own Init. Oracle (independent of the Init
+/// arm): an Init is refused (read_event Err, peer not listed) iff its `networks` is present and shares no chain with
+/// ours, or it sets an unknown EVEN feature bit, or it lacks a feature our Init requires; otherwise the peer is listed.
+fn init_content_scenarios(rec: &mut Rec, rng: &mut Rng, secp: &Secp, rounds: usize) {
+	use lightning::ln::functional_test_utils::{create_chanmon_cfgs, create_network, create_node_cfgs, create_node_chanmgrs};
+	use lightning::util::ser::LengthReadable;
+	use bitcoin::constants::ChainHash;
+	let built = guarded(AssertUnwindSafe(|| {
+		let chanmon_cfgs = leak(create_chanmon_cfgs(1));
+		let node_cfgs = leak(create_node_cfgs(1, chanmon_cfgs));
+		let chanmgrs = leak(create_node_chanmgrs(1, node_cfgs, &[None]));
+		leak(create_network(1, node_cfgs, chanmgrs))
+	}));
+	let nodes = match built { Ok(n) => n, Err(e) => { rec.oracle_fail(format!("could not build a test node: {}", e)); return; } };
+	let node = &nodes[0];
+	let mh = MessageHandler { chan_handler: node.node, route_handler: leak(IgnoringMessageHandler {}), onion_message_handler: leak(IgnoringMessageHandler {}), custom_message_handler: leak(Handler::new()), send_only_message_handler: leak(IgnoringMessageHandler {}) };
+	let pm = PeerManager::new(mh, 0, &rng.bytes32(), leak(NullLogger), node.keys_manager);
+	let node_id = node.node.get_our_node_id();
+	let (ours, foreign) = (ChainHash::using_genesis_block(bitcoin::Network::Testnet), ChainHash::using_genesis_block(bitcoin::Network::Bitcoin));
+	for i in 0..rounds * 8 {
+		let mut d = Desc::new(20_000 + i as u64);
+		let my = rand_sk(rng);
+		let (mut enc, init) = match enc_handshake_with_key(&pm, node_id, rng, secp, &mut d, &my) { Ok(x) => x, Err(e) => { rec.oracle_fail(format!("handshake with the ChannelManager-backed PeerManager failed: {}", e)); return; } };
+		let base: Init = match LengthReadable::read_from_fixed_length_buffer(&mut &init[2..]) { Ok(m) => m, Err(_) => { rec.oracle_fail("the node's own Init does not decode".into()); return; } };
+		let mut m = base.clone();
+		let mut flags = base.features.le_flags().to_vec();
+		let (what, want_refused): (String, bool) = match i % 8 {
+			0 => ("echo of the node's own Init".into(), false),
+			1 => { let bit = 2 * (150 + rng.below(100) as usize); flags.resize(bit / 8 + 1, 0); flags[bit / 8] |= 1 << (bit % 8); (format!("unknown EVEN feature bit {} set", bit), true) },
+			2 => { let bit = 2 * (150 + rng.below(100) as usize) + 1; flags.resize(bit / 8 + 1, 0); flags[bit / 8] |= 1 << (bit % 8); (format!("unknown odd feature bit {} set", bit), false) },
+			3 => { m.networks = Some(vec![foreign]); ("networks = [bitcoin mainnet] only (node is testnet)".into(), true) },
+			4 => { m.networks = Some(vec![foreign, ours]); ("networks = [mainnet, testnet]".into(), false) },
+			5 => { m.networks = None; ("no networks TLV".into(), false) },
+			6 => { m.networks = Some(vec![]); ("empty networks list".into(), true) },
+			_ => { flags = vec![]; ("no feature bits at all".into(), base.features.requires_unknown_bits_from(&InitFeatures::empty())) },
+		};
+		m.features = InitFeatures::from_le_bytes(flags);
+		let mut plain = vec![0u8, 16]; plain.extend(m.encode());
+		let ctx = format!("Init variant: {} ; Init bytes {} ; the node's own Init {}", what, hex(&plain), hex(&init));
+		let r = guarded(AssertUnwindSafe(|| {
+			let f = enc.encrypt_buffer(&plain).unwrap();
+			let refused = pm.read_event(&mut d, &f).is_err();
+			pm.process_events();
+			(refused, pm.peer_by_node_id(&pk(secp, &my)).is_some())
+		}));
+		match r {
+			Err(p) => { rec.oracle_fail(format!("Init compatibility: PeerManager panicked: {} ; {}", p, ctx)); return; },
+			Ok((refused, listed)) => {
+				if refused != want_refused || listed == want_refused { rec.oracle_fail(format!("Init compatibility: the Init was {} (peer listed: {}) but the rules (no common chain when `networks` is present / unknown even bit / a feature we require is missing => disconnect before anything else is handled) say {} ; {}", if refused { "refused" } else { "accepted" }, listed, if want_refused { "refuse" } else { "accept" }, ctx)); }
+				if !refused { pm.socket_disconnected(&d); }
+			},
+		}
+		oracle_case(rec, &format!("note init-content {} {}", i, what), if want_refused { "init-content:refused" } else { "init-content:accepted" });
+	}
 }
 
 /// (4b) the same nonsense through a PeerManager whose handlers are a real ChannelManager,
